@@ -4,6 +4,8 @@ import (
 	"bytes"
 	"fmt"
 	"io"
+	"runtime"
+	"syscall"
 
 	"pgregory.net/rapid"
 
@@ -22,6 +24,147 @@ type C03Case struct {
 	BufSize int    `json:"bufsize,omitempty"`
 	EOFData bool   `json:"eof_with_data,omitempty"`
 	Kind    string `json:"kind,omitempty"`
+	// Scale: the case is a SCALING probe — the document is built from (format,
+	// family, n) at sizes n and 4n and fed in tiny pieces (Entry: write1 |
+	// reader3 | decoder3); Data is unused
+	Scale *C03Scale `json:"scale,omitempty"`
+}
+
+type C03Scale struct {
+	Family string `json:"family"`
+	N      int    `json:"n"`
+}
+
+// scaleFamilies: valid documents of about n bytes whose size is made of ONE
+// repeated construct (what a per-chunk rescan would be proportional to).
+var scaleFamilies = map[string][]string{
+	"json":   {"backslashes", "key_backslashes", "u_escapes", "plain_string", "fraction_digits", "whitespace", "nesting", "members", "invalid_utf8"},
+	"ubjson": {"string", "noops", "nesting", "members", "hnum", "key"},
+	"cborl":  {"text", "bytes", "nesting", "indef_members", "members", "key"},
+}
+
+func scaleDoc(format, family string, n int) []byte {
+	rep := func(s string, k int) []byte { return bytes.Repeat([]byte(s), k) }
+	cat := func(parts ...[]byte) []byte { return bytes.Join(parts, nil) }
+	be32 := func(v int) []byte { return []byte{byte(v >> 24), byte(v >> 16), byte(v >> 8), byte(v)} }
+	switch format + "/" + family {
+	case "json/backslashes":
+		return cat([]byte(`"`), rep(`\\`, n/2), []byte(`"`))
+	case "json/key_backslashes":
+		return cat([]byte(`{"`), rep(`\\`, n/2), []byte(`":1}`))
+	case "json/u_escapes":
+		return cat([]byte(`"`), rep(`\u0041`, n/6), []byte(`"`))
+	case "json/plain_string":
+		return cat([]byte(`"`), rep("a", n), []byte(`"`))
+	case "json/fraction_digits":
+		return cat([]byte("[0."), rep("1", n), []byte("]"))
+	case "json/whitespace":
+		return cat([]byte("["), rep(" ", n), []byte("1]"))
+	case "json/nesting":
+		return cat(rep("[", n/2), rep("]", n/2))
+	case "json/members":
+		return cat([]byte("[1"), rep(",1", n/2), []byte("]"))
+	case "json/invalid_utf8":
+		return cat([]byte(`"`), rep("\xff", n), []byte(`"`))
+	case "ubjson/string":
+		return cat([]byte("Sl"), be32(n), rep("a", n))
+	case "ubjson/noops":
+		return cat(rep("N", n), []byte("Z"))
+	case "ubjson/nesting":
+		return cat(rep("[", n/2), rep("]", n/2))
+	case "ubjson/members":
+		return cat([]byte("["), rep("i\x01", n/2), []byte("]"))
+	case "ubjson/hnum":
+		return cat([]byte("Hl"), be32(n), rep("1", n))
+	case "ubjson/key":
+		return cat([]byte("{l"), be32(n), rep("k", n), []byte("Z}"))
+	case "cborl/text":
+		return cat([]byte{0x7a}, be32(n), rep("a", n))
+	case "cborl/bytes":
+		return cat([]byte{0x5a}, be32(n), rep("a", n))
+	case "cborl/nesting":
+		return cat(rep("\x81", n), []byte{0x01})
+	case "cborl/indef_members":
+		return cat([]byte{0x9f}, rep("\x01", n), []byte{0xff})
+	case "cborl/members":
+		return cat([]byte{0x9a}, be32(n), rep("\x01", n))
+	case "cborl/key":
+		return cat([]byte{0xa1, 0x7a}, be32(n), rep("k", n), []byte{0x01})
+	}
+	return nil
+}
+
+type smallReader struct {
+	data []byte
+	n    int
+}
+
+func (r *smallReader) Read(p []byte) (int, error) {
+	if len(r.data) == 0 {
+		return 0, io.EOF
+	}
+	k := min(r.n, len(r.data), len(p))
+	copy(p, r.data[:k])
+	r.data = r.data[k:]
+	return k, nil
+}
+
+func cpuSeconds() float64 {
+	var ru syscall.Rusage
+	if err := syscall.Getrusage(syscall.RUSAGE_SELF, &ru); err != nil {
+		return 0
+	}
+	return float64(ru.Utime.Sec+ru.Stime.Sec) + float64(ru.Utime.Usec+ru.Stime.Usec)/1e6
+}
+
+// checkC03Scale: time proportional to the input length. The same construct at
+// sizes n and 4n, delivered in tiny pieces; the measure is the CPU time of this
+// process (not the wall clock: a busy machine does not count). A violation needs
+// BOTH more than one CPU second for the larger input (linear code needs
+// milliseconds) and more than 8 times the CPU time of the smaller one
+// (quadratic: 16).
+func checkC03Scale(c *C03Case, info *CaseInfo) string {
+	cd := codecs[c.Format]
+	info.Class("scaling:" + c.Scale.Family)
+	info.NonTrivial = true
+	run := func(n int) (float64, Outcome, int) {
+		doc := scaleDoc(c.Format, c.Scale.Family, n)
+		if doc == nil {
+			return 0, Outcome{Err: fmt.Errorf("harness: unknown family")}, 0
+		}
+		cnt := &model.Counter{}
+		runtime.GC()
+		t0 := cpuSeconds()
+		o := guard(func() error {
+			switch c.Entry {
+			case "reader3":
+				_, err := cd.ParseReader(&smallReader{data: doc, n: 3}, cnt)
+				return err
+			case "decoder3":
+				return cd.NewDecoder(&smallReader{data: doc, n: 1 << 20}, 3, cnt).Next()
+			}
+			p := cd.NewParser(cnt)
+			for i := range doc {
+				if _, err := p.Write(doc[i : i+1]); err != nil {
+					return err
+				}
+			}
+			return nil
+		})
+		return cpuSeconds() - t0, o, len(doc)
+	}
+	t1, o1, l1 := run(c.Scale.N)
+	t4, o4, l4 := run(4 * c.Scale.N)
+	if o1.Panicked() || o4.Panicked() {
+		return fmt.Sprintf("%s %s/%s panics: %v / %v", c.Format, c.Scale.Family, c.Entry, o1, o4)
+	}
+	if o1.Class() != o4.Class() {
+		return fmt.Sprintf("%s %s/%s: %d bytes end with %v, %d bytes with %v", c.Format, c.Scale.Family, c.Entry, l1, o1, l4, o4)
+	}
+	if t4 > 1.0 && t4 > 8*max(t1, 0.001) {
+		return fmt.Sprintf("%s parser, %s fed through %s: %d bytes take %.3fs of CPU, %d bytes %.3fs (x%.1f for 4 times the input): time is not proportional to the input length", c.Format, c.Scale.Family, c.Entry, l1, t1, l4, t4, t4/max(t1, 0.001))
+	}
+	return ""
 }
 
 var c03Entries = []string{"parse", "parsestring", "parsereader", "write", "bytesdecoder", "decoder"}
@@ -94,6 +237,9 @@ func checkC03(ci any, info *CaseInfo) string {
 	cd := codecs[c.Format]
 	if cd == nil {
 		return "harness: unknown format"
+	}
+	if c.Scale != nil {
+		return checkC03Scale(c, info)
 	}
 	// work bound: every format needs at least one input byte per two events
 	// (a container header yields start+finish); the visitor refuses further
@@ -297,7 +443,7 @@ type gen2Span struct{}
 func init() {
 	register(&Property{
 		ID:    "C03",
-		Rule:  "inputs: random bytes; hostile constants from the statement (CBOR tag/half float/minors 28-30/lengths 2^63..2^64-1, UBJSON bad length markers/unterminated containers/$N, JSON broken escapes and lone surrogates) alone, with random tails or spliced into valid documents; every proper prefix of valid own/foreign documents; 1-2 byte-level mutations of valid documents (bit flip, insert, delete, overwrite, hostile length fields); long concatenations for the linear bound x chunkings x entry points {Parse, ParseString, ParseReader, Write, NewBytesDecoder+Next, NewDecoder+Next with buffer sizes 1..4096}; oracle = no panic, no hang (watchdog), Next loop <= len+2 calls, TotalAlloc <= 64KiB+buf+64*len, ParseString leaves its argument intact, and inputs the reference decoder classifies as 'needs more input' must end in an error other than io.EOF at every end-aware entry point; deterministic part: every prefix (incl. empty and full) of a fixed set of valid documents and every hostile constant x all 6 entry points; non-trivial = at least one event delivered or input >= 2 bytes; distinct by case hash",
+		Rule:  "inputs: random bytes; hostile constants from the statement (CBOR tag/half float/minors 28-30/lengths 2^63..2^64-1, UBJSON bad length markers/unterminated containers/$N, JSON broken escapes and lone surrogates) alone, with random tails or spliced into valid documents; every proper prefix of valid own/foreign documents; 1-2 byte-level mutations of valid documents (bit flip, insert, delete, overwrite, hostile length fields); long concatenations for the linear bound x chunkings x entry points {Parse, ParseString, ParseReader, Write, NewBytesDecoder+Next, NewDecoder+Next with buffer sizes 1..4096}; oracle = no panic, no hang (watchdog), Next loop <= len+2 calls, TotalAlloc <= 64KiB+buf+64*len, ParseString leaves its argument intact, and inputs the reference decoder classifies as 'needs more input' must end in an error other than io.EOF at every end-aware entry point; deterministic part: every prefix (incl. empty and full) of a fixed set of valid documents and every hostile constant x all 6 entry points; non-trivial = at least one event delivered or input >= 2 bytes; distinct by case hash; scaling probes (deterministic): 21 single-construct document families (runs of backslashes, escapes, digits, whitespace, nesting, members, no-ops, long strings/keys/byte strings ...) at 30 KB and 120 KB fed byte-wise through Write, through ParseReader in 3-byte reads and through a pull decoder with a 3-byte buffer; a violation needs more than 1 s of process CPU time for the larger input AND more than 8x the CPU time of the smaller one",
 		New:   func() any { return &C03Case{} },
 		Draw:  drawC03,
 		Check: checkC03,
